@@ -20,12 +20,12 @@ pub struct Arena<const N: usize>(pub [MaybeUninit<u8>; N]);
 
 pub const ARENA: usize = 2048;
 
-/// Moves `v` to a solver-chosen admissible offset inside a 64-aligned arena and returns it by reference.
-fn place<'a, T>(arena: &'a mut Arena<ARENA>, v: T) -> &'a mut T {
+/// Moves `v` to offset `k * align_of::<T>()` inside a 64-aligned arena and returns it by reference
+/// (`k` concrete per query, enumerated by the driver: a symbolic offset makes the move of the whole vector
+/// object a symbolic-offset memcpy, which does not finish).
+fn place<'a, T>(arena: &'a mut Arena<ARENA>, v: T, k: Dim) -> &'a mut T {
     let a = align_of::<T>();
-    let k = any_usize();
-    assume(k < 64 / a.min(64).max(1) + 1);
-    let off = k * a;
+    let off = k.get() * a;
     vp_assert!(off + size_of::<T>() <= ARENA, "VP: harness arena too small");
     unsafe {
         let p = (arena.0.as_mut_ptr() as *mut u8).add(off) as *mut T;
@@ -46,7 +46,7 @@ pub fn views_h<Tr: ?Sized + Trait, B: Backend, E: Elem + SatisfyTraits<Tr>>(p: c
     reset_all();
     let (v0, mut m) = build::<Tr, B, E>(p.cap, p.len, 0);
     let mut arena: Arena<ARENA> = Arena(unsafe { MaybeUninit::uninit().assume_init() });
-    let v = place(&mut arena, v0);
+    let v = place(&mut arena, v0, p.idx2);
     let (len, cap, size, al) = (m.len, v.capacity(), size_of::<E>(), align_of::<E>());
     let base = v.downcast_ref::<E>().unwrap().as_ptr() as usize;
     vp_assert!(base % al == 0, "VP: storage pointer is not aligned for the element type");
@@ -115,7 +115,7 @@ pub fn aligned_use_h<Tr: ?Sized + Trait, B: Backend, E: Elem + SatisfyTraits<Tr>
     reset_all();
     let (v0, mut m) = build::<Tr, B, E>(p.cap, p.len, 0);
     let mut arena: Arena<ARENA> = Arena(unsafe { MaybeUninit::uninit().assume_init() });
-    let v = place(&mut arena, v0);
+    let v = place(&mut arena, v0, p.idx2);
     if !B::RESIZABLE {
         assume(m.len < v.capacity());
     }
